@@ -302,8 +302,74 @@ func c14(r *Run) {
 				return isC && px.Must(i, lbl("ctl", ro.evDetach))
 			}
 			r.mustPass("C14.R2:ctx-branch-detaches", "when the context expires WaitWrite deregisters the descriptor before returning (the caller closes the fd; a registered slot must not outlive it)", fn, nil, starts, detaches, nil, nil, "Control(PollDetach) on every path from the ctx.Done() case")
+			// ... and the wait that ended by the context ends the dial: no nil return is reachable from that case (connect()
+			// treats nil as "writable, look at SO_ERROR" and would keep waiting past its timeout)
+			{
+				ss := &Search{Fn: fn}
+				var bad ssa.Instruction
+				for _, ret := range ss.Reachable(starts, func(i ssa.Instruction) bool { _, ok := i.(*ssa.Return); return ok }) {
+					if lastResultAll(ret.(*ssa.Return), isNilConst) {
+						bad = ret
+					}
+				}
+				r.Visited += ss.Visited
+				r.ob("C14.R2:ctx-branch-returns-error", "once the context has expired WaitWrite returns an error on every path: a nil return means 'writable' to connect(), which would go on polling SO_ERROR and waiting - the dial would not end at its timeout", fn, bad, bad == nil, "no nil return reachable from the ctx.Done() case", true)
+			}
 			mapErr := w.MustFn("mapErr")
 			r.mustPass("C14.R3:ctx-error-mapped:WaitWrite", "the context error is mapped to the net-style error (deadline => timeout error)", fn, nil, starts, func(i ssa.Instruction) bool { return isCall(i, mapErr) }, nil, nil, "mapErr on every path")
+		}
+		// the hang-up callback runs later, on the hup goroutine, when the poller has long released the slot (and a timed-out
+		// dial may have freed it): it only signals, it never touches the slot
+		{
+			onhup := w.MustFn("(*pollDesc).onhup")
+			opCtl := w.MustFn("(*FDOperator).Control")
+			reach := map[*ssa.Function]bool{opCtl: true}
+			for changed := true; changed; {
+				changed = false
+				for _, f := range w.Funcs {
+					if reach[f] {
+						continue
+					}
+					forEachIns(f, func(i ssa.Instruction) {
+						if c := calleeOf(i); c != nil && reach[c] && !reach[f] {
+							reach[f] = true
+							changed = true
+						}
+					})
+				}
+			}
+			var bad ssa.Instruction
+			forEachIns(onhup, func(i ssa.Instruction) {
+				if c := calleeOf(i); c != nil && reach[c] {
+					bad = i
+				}
+			})
+			r.ob("C14.R2:onhup-only-signals", "the dial's hang-up callback (queued by the poller and run after the batch, when the slot's token is long released and the slot may already be freed and re-used) never calls FDOperator.Control: the poller detached the descriptor itself", onhup, bad, bad == nil, "no Control reachable from pollDesc.onhup", true)
+		}
+		{
+			ssk := w.MustFn("sysSocket")
+			isNonblock := func(i ssa.Instruction) bool {
+				c := calleeOf(i)
+				if c == nil || c.Name() != "SetNonblock" || c.Pkg == nil || c.Pkg.Pkg.Path() != "syscall" {
+					return false
+				}
+				k, ok := constInt(callCommon(i).Args[1])
+				return ok && k == 1
+			}
+			var wit *Witness
+			var at ssa.Instruction
+			forEachIns(ssk, func(i ssa.Instruction) {
+				ret, ok := i.(*ssa.Return)
+				if !ok || !lastResultAll(ret, isNilConst) || wit != nil {
+					return
+				}
+				ss := &Search{Fn: ssk, Stop: isNonblock}
+				if wt := ss.Find([]Start{Entry(ssk)}, isIns(i), false); wt != nil {
+					wit, at = wt, i
+				}
+				r.Visited += ss.Visited
+			})
+			r.obW("C14.R1:sysSocket-nonblocking", "every descriptor sysSocket returns was made non-blocking first, whatever its family: connect(2) on a blocking socket (a unix socket with a full backlog, ...) blocks inside the system call and ignores the dial's timeout", ssk, at, wit, "SetNonblock(s, true) on every success path")
 		}
 		// registration happens only when the slot is unused, and its error is returned
 		for _, c := range findIns(fn, func(i ssa.Instruction) bool { return ro.isControl(i, ro.evWritable) }) {
